@@ -76,6 +76,9 @@ type RPC struct {
 	// BadResponse: a unary call whose response the encoding cannot unmarshal (the request goes out, the handler
 	// answers, Invoke fails while decoding the answer).
 	BadResponse bool
+	// Deadline: the call's context ends the way an expired deadline does (Err() == context.DeadlineExceeded)
+	// instead of by cancellation. No timer is involved: the harness ends it at the step it chooses.
+	Deadline bool
 }
 
 const (
@@ -653,6 +656,10 @@ func (w *World) StartClient(k int) *Actor {
 		base = drpcmetadata.Add(base, kv[0], kv[1])
 	}
 	ctx, cancel := context.WithCancel(base)
+	if spec.Deadline {
+		ec := newEndCtx(base)
+		ctx, cancel = ec, func() { ec.end(context.DeadlineExceeded) }
+	}
 	w.mu.Lock()
 	w.cancels[k] = cancel
 	w.mu.Unlock()
@@ -1113,3 +1120,69 @@ var _ = errors.New
 func (a *Actor) GID() int64 { a.mu.Lock(); defer a.mu.Unlock(); return a.gid }
 
 func (a *Actor) setGID() { g := GoID(); a.mu.Lock(); a.gid = g; a.mu.Unlock() }
+
+
+// endCtx is a context whose end the harness decides, including the error it reports (context.DeadlineExceeded
+// without any timer). It implements the AfterFunc method the context package looks for, so deriving contexts from
+// it needs no watcher goroutine.
+type endCtx struct {
+	context.Context
+	mu    sync.Mutex
+	done  chan struct{}
+	err   error
+	after map[int]func()
+	next  int
+}
+
+func newEndCtx(parent context.Context) *endCtx {
+	return &endCtx{Context: parent, done: make(chan struct{}), after: map[int]func(){}}
+}
+
+func (c *endCtx) Done() <-chan struct{} { return c.done }
+
+func (c *endCtx) Err() error {
+	c.mu.Lock()
+	defer c.mu.Unlock()
+	return c.err
+}
+
+func (c *endCtx) AfterFunc(f func()) (stop func() bool) {
+	c.mu.Lock()
+	defer c.mu.Unlock()
+	if c.err != nil {
+		go f()
+		return func() bool { return false }
+	}
+	id := c.next
+	c.next++
+	c.after[id] = f
+	return func() bool {
+		c.mu.Lock()
+		defer c.mu.Unlock()
+		_, ok := c.after[id]
+		delete(c.after, id)
+		return ok
+	}
+}
+
+func (c *endCtx) end(err error) {
+	c.mu.Lock()
+	if c.err != nil {
+		c.mu.Unlock()
+		return
+	}
+	c.err = err
+	close(c.done)
+	fs := c.after
+	c.after = map[int]func(){}
+	c.mu.Unlock()
+	ids := make([]int, 0, len(fs))
+	for id := range fs {
+		ids = append(ids, id)
+	}
+	sort.Ints(ids)
+	for _, id := range ids {
+		f := fs[id]
+		f() // cancels the derived contexts before anything that waits on Done of this one can observe a gap
+	}
+}
